@@ -258,22 +258,39 @@ func runC13(c *RuleCtx) {
 			{"(*tagTracer).Graft", "(*tagTracer).tagMeshPeer", "ConnManager.Protect"},
 			{"(*tagTracer).Prune", "(*tagTracer).untagMeshPeer", "ConnManager.Unprotect"},
 		} {
-			if f := c.MustFn("R13.4", tc.fn); f != nil {
-				ok, why := p.MustCallFromEntry(f, tc.helper)
-				c.Check(ok, "R13.4", f.Name, "maps to "+shortFn(tc.helper), f.Decl, why, why)
+			// effect-based (the thin helper tagMeshPeer/untagMeshPeer may exist or be written out in place):
+			// every path through Graft/Prune calls cmgr.Protect/Unprotect(p, topicTag(topic))
+			cm := tc.cm
+			withTag := func(fn *Func, cs CallSite) bool {
+				if !strings.HasSuffix(cs.Name, cm) || len(cs.Call.Args) != 2 {
+					return false
+				}
+				tag := p.R(fn).Val(cs.Call.Args[1])
+				peerV := p.R(fn).Val(cs.Call.Args[0])
+				return tag.IsCall("topicTag") && tag.Args[0].Kind == "var" && peerV.Kind == "var"
 			}
-			if h := c.MustFn("R13.4", tc.helper); h != nil {
-				okc := false
-				for _, cs := range p.FuncCalls(h, false) {
-					if strings.HasSuffix(cs.Name, tc.cm) && len(cs.Call.Args) == 2 {
-						tag := p.R(h).Val(cs.Call.Args[1])
-						peerV := p.R(h).Val(cs.Call.Args[0])
-						if tag.IsCall("topicTag") && tag.Args[0].Kind == "var" && peerV.Kind == "var" {
-							okc = true
+			if f := c.MustFn("R13.4", tc.fn); f != nil {
+				g := p.Graph(f)
+				ok, _ := g.MustPass(g.Entry(), PassOpts{}, p.EffectPred(f, withTag))
+				c.Check(ok, "R13.4", f.Name, "maps to "+shortFn(tc.helper), f.Decl, "every path calls cmgr."+shortFn(tc.cm)+"(p, topicTag(topic))", "a path through "+shortFn(tc.fn)+" does not call "+tc.cm+"(p, topicTag(topic)): the connection-manager protection and the mesh membership diverge")
+				// any call of the connection manager's Protect/Unprotect in this function or its helper uses the topic's tag
+				okc := true
+				hs := []*Func{f}
+				if h := p.Funcs[tc.helper]; h != nil {
+					hs = append(hs, h)
+				}
+				nCalls := 0
+				for _, h := range hs {
+					for _, cs := range p.FuncCalls(h, false) {
+						if strings.HasSuffix(cs.Name, cm) && len(cs.Call.Args) == 2 {
+							nCalls++
+							if !withTag(h, cs) {
+								okc = false
+							}
 						}
 					}
 				}
-				c.Check(okc, "R13.4", h.Name, shortFn(tc.cm)+" with the topic's tag", h.Decl, "cmgr."+shortFn(tc.cm)+"(p, topicTag(topic))", "the helper does not call "+tc.cm+"(p, topicTag(topic)): protect/unprotect tags would not match")
+				c.Check(okc && nCalls > 0, "R13.4", "(*tagTracer)."+shortFn(tc.helper), shortFn(tc.cm)+" with the topic's tag", f.Decl, "cmgr."+shortFn(tc.cm)+"(p, topicTag(topic))", "the tag tracer does not call "+tc.cm+"(p, topicTag(topic)): protect/unprotect tags would not match")
 			}
 		}
 	}
